@@ -179,6 +179,37 @@ def run(prog, check):
                      'constant-named flow variable %s is defined on another sector by define-if-empty: a second %s targeting the same '
                      'sector books the flow again but the variable keeps the first definition' % (short(name_key), ci.name),
                      'two %s objects in one country / zone' % ci.name)
+    # the position the foreign-exchange intermediary holds in a currency moves by exactly its net transactions in that currency:
+    # F_<cur> := LAG_F_<cur> + NET_<cur>, LAG_F_<cur> := F_<cur>(k-1)   (the "position the intermediary takes" of the statement;
+    # the unit ledgers above count NET_<cur> as that position's change)
+    ext_cls = prog.classes.get('ExternalSector')
+    rc = prog.resolve_method(ext_cls, 'RegisterCurrency') if ext_cls is not None else None
+    if rc is not None:
+        from ..strdom import Str as _Str
+        from ..algebra import Reader as _Reader
+        from fractions import Fraction as _Fr
+        itr = effects.run_method(prog, ext_cls, 'RegisterCurrency', phase='prim', bind={'currency': _Str(['CUR'])})
+        defs_ = {e.name.literal(): e for e in itr.effects if e.kind == 'def' and e.name.literal()}
+        stock = defs_.get('F_CUR')
+        if stock is not None and stock.rhs is not None:
+            rd_ = _Reader(stock.role)
+            pz = rd_.read(stock.rhs)
+            coef = {}
+            for mono, c_ in pz.terms.items():
+                if len(mono) == 1 and mono[0][1] == 1 and mono[0][0][0] == 'var':
+                    nm_ = mono[0][0][2]
+                    coef[str(nm_)] = c_
+            flat = {k_: v_ for k_, v_ in coef.items()}
+            ok_net = len(pz.terms) == 2 and not rd_.problems and any('NET_CUR' in k_ and v_ == _Fr(1) for k_, v_ in flat.items()) and \
+                any('LAG_F_CUR' in k_ and v_ == _Fr(1) for k_, v_ in flat.items())
+            lag = defs_.get('LAG_F_CUR')
+            ok_lag = lag is not None and lag.rhs is not None and (lag.rhs.literal() or '').replace(' ', '') == 'F_CUR(k-1)'
+            check.saw(rc)
+            check.ob('C01.R1', '%s::intermediary-position-moves-by-its-net-transactions' % rc.key, ok_net and ok_lag, stock.where,
+                     'F_<cur> = LAG_F_<cur> + NET_<cur>, LAG_F_<cur> = F_<cur>(k-1)' if (ok_net and ok_lag) else
+                     'the intermediary\'s position is defined as %s (lag: %s): it does not move by the net transactions in the currency, so the '
+                     'assets of the zone and the intermediary\'s position no longer sum to zero' % (stock.rhs.show(), lag.rhs.show() if lag is not None and lag.rhs is not None else '?'),
+                     'any cross-currency flow: sum of dF over the zone plus dF_<cur> of the intermediary')
     check.floor('C01.W', 3)
     check.floor('C01.R1', 12)
     check.floor('C01.R3', 3)
